@@ -49,7 +49,15 @@ def nucleationBarrier(volumeDrivingForce, precipitate : PrecipitateParameters, a
     else:
         RcritProposal = precipitate.nucleation.Rcrit(volumeDrivingForce[indices])
         Rcrit[indices] = np.amax([RcritProposal, Rmin[indices]], axis=0)
-        Gcrit[indices] = precipitate.nucleation.Gcrit(volumeDrivingForce[indices], Rcrit[indices])
+        GcritGB = np.atleast_1d(precipitate.nucleation.Gcrit(volumeDrivingForce[indices], Rcrit[indices]))
+        #If the critical radius was increased to the minimum radius, the energy of the nucleus at that radius is past the top
+        #of the barrier (it decreases with driving force and becomes negative above 3*gamma/Rmin)
+        #Use the surface energy form of the barrier there, G* = (b*gamma - a*gamma_gb) * Rcrit^2 / 3, which equals Gcrit at the
+        #critical radius and is what the bulk expression above reduces to ((4*pi/3) * gamma * Rcrit^2)
+        clamped = np.atleast_1d(RcritProposal < Rmin[indices])
+        nuc = precipitate.nucleation
+        GcritGB[clamped] = (nuc.areaFactor * nuc.gamma - nuc.gbRemoval * nuc.gbEnergy) * np.atleast_1d(Rcrit[indices])[clamped]**2 / 3
+        Gcrit[indices] = GcritGB
 
     return np.squeeze(Rcrit), np.squeeze(Gcrit)
 
